@@ -63,6 +63,7 @@ class ShardCtx:
         self.samples = []
         self.violations = []
         self.known_hits = {}    # mechanism -> count
+        self.vclasses = {}      # "monitor|finding" -> count
         self.case = None
         self.cases_run = 0
         self.errors = []
@@ -116,6 +117,8 @@ class ShardCtx:
         executable defect model reproduced the observed output (None otherwise)."""
         if finding is not None:
             self.known_hits[finding] = self.known_hits.get(finding, 0) + 1
+        cls = f"{monitor}|{finding}"
+        self.vclasses[cls] = self.vclasses.get(cls, 0) + 1
         key = (monitor, finding)
         n_same = sum(1 for v in self.violations if (v["monitor"], v["finding"]) == key)
         if n_same >= 5 or len(self.violations) >= self.MAX_VIOLATIONS:
@@ -148,6 +151,6 @@ class ShardCtx:
             "prop": self.prop, "shard": self.shard, "cases_run": self.cases_run,
             "monitors": self.monitors, "counters": self.counters,
             "nontrivial": sorted(self.nontrivial), "samples": self.samples,
-            "violations": self.violations, "known_hits": self.known_hits,
+            "violations": self.violations, "known_hits": self.known_hits, "vclasses": self.vclasses,
             "errors": self.errors, "wall_s": time.time() - self.t0,
         }
